@@ -268,6 +268,8 @@ pub fn run(a: &Args) -> Collector {
     let rounds = if a.thorough { 200 } else { 14 };
     elems_full::<u16>(&mut r, &mut c, &mut q, rounds);
     elems_full::<i32>(&mut r, &mut c, &mut q, rounds);
+    elems_full::<i8>(&mut r, &mut c, &mut q, rounds);
+    elems_full::<u64>(&mut r, &mut c, &mut q, rounds);
     elems_full::<String>(&mut r, &mut c, &mut q, rounds);
     elems_full::<(u8, String)>(&mut r, &mut c, &mut q, rounds);
     elems_full::<Option<u8>>(&mut r, &mut c, &mut q, rounds);
